@@ -928,6 +928,15 @@ class RTCSctpTransport(AsyncIOEventEmitter):
             ochunk._retransmit = False
             if ochunk.flags & SCTP_DATA_LAST_FRAG:
                 break
+        else:
+            # the remaining fragments of the message have not been sent yet,
+            # they will never be: account for them so FORWARD-TSN skips them
+            while self._outbound_queue:
+                ochunk = self._outbound_queue.popleft()
+                ochunk._abandoned = True
+                self._sent_queue.append(ochunk)
+                if ochunk.flags & SCTP_DATA_LAST_FRAG:
+                    break
 
         return True
 
@@ -1250,7 +1259,7 @@ class RTCSctpTransport(AsyncIOEventEmitter):
                     highest_newly_acked = schunk.tsn
 
             # strike missing chunks prior to HTNA
-            for schunk in self._sent_queue:
+            for schunk in list(self._sent_queue):
                 if uint32_gt(schunk.tsn, highest_newly_acked):
                     break
                 if schunk.tsn not in seen:
@@ -1550,7 +1559,7 @@ class RTCSctpTransport(AsyncIOEventEmitter):
         self.__log_debug("x T3 expired")
 
         # mark retransmit or abandoned chunks
-        for chunk in self._sent_queue:
+        for chunk in list(self._sent_queue):
             if not self._maybe_abandon(chunk):
                 chunk._retransmit = True
         self._update_advanced_peer_ack_point()
